@@ -959,6 +959,52 @@ func (b *modelBuilder) call1(x *ssa.Call, s *mstate) bool {
 	// first-party helper: if it cannot touch the protocol state or the network, note it; otherwise inline
 	if !b.interesting(callee, map[*ssa.Function]bool{}) {
 		s.path.Effects = append(s.path.Effects, &Effect{Kind: "CALL", Name: callee.Name(), Args: x.Call.Args, Instr: x, Val: x})
+		// a pure predicate or mapping of values the model knows (state.hasChannel(), phaseName(state)):
+		// its result is the constant it computes for them
+		if callee.Signature.Results().Len() == 1 && callee.Blocks != nil {
+			args := x.Call.Args
+			known := true
+			vals := make([]constant.Value, len(args))
+			for i, a := range args {
+				cv, ok := b.evalConst(s, a)
+				if !ok {
+					known = false
+					break
+				}
+				vals[i] = cv
+			}
+			if known && len(args) == len(callee.Params) {
+				rs, done := evalPaths(callee, evalCfg{limit: 64, seed: func(v ssa.Value) (constant.Value, bool) {
+					if p, isP := v.(*ssa.Parameter); isP {
+						for i, q := range callee.Params {
+							if q == p {
+								return vals[i], true
+							}
+						}
+					}
+					return nil, false
+				}})
+				if done && len(rs) > 0 {
+					var val constant.Value
+					same := true
+					for _, r := range rs {
+						if len(r.Unknown) > 0 || len(r.Ret.Results) != 1 {
+							same = false
+							break
+						}
+						cv, ok := r.Env.get(r.Ret.Results[0])
+						if !ok || (val != nil && !constant.Compare(val, token.EQL, cv)) {
+							same = false
+							break
+						}
+						val = cv
+					}
+					if same && val != nil {
+						s.env[x] = val
+					}
+				}
+			}
+		}
 		return true
 	}
 	b.pendingInline = callee
